@@ -4,8 +4,9 @@
 //! only "some total order consistent with equality" is demanded).
 
 use std::cmp::Ordering;
-use std::collections::hash_map::DefaultHasher;
-use std::hash::{Hash, Hasher};
+use std::collections::HashMap;
+
+use crate::hashers::{hashes, mismatch, FxBuild, Hashes};
 
 use hickory_proto::rr::{LowerName, Name, RecordType, RrKey};
 use serde_json::{json, Value};
@@ -20,9 +21,11 @@ pub struct Ent {
     pub low: LowerName,
     pub ka: RrKey,
     pub kb: RrKey,
-    pub hash: u64,
-    pub lhash: u64,
-    pub khash: u64,
+    /// SipHash / FxHash / length-prefixing hash / recorded Hasher call log of the Name, of its
+    /// LowerName and of the RrKey (type A)
+    pub hs: Hashes,
+    pub lhs: Hashes,
+    pub khs: Hashes,
     /// dense rank of the labels under the reference canonical order (equal labels share a rank)
     pub rank: u32,
     /// case-folded concatenation of all label octets
@@ -37,11 +40,6 @@ pub struct Ent {
     pub lowl: vref::name::Labels,
 }
 
-fn h64<T: Hash>(t: &T) -> u64 {
-    let mut s = DefaultHasher::new();
-    t.hash(&mut s);
-    s.finish()
-}
 
 pub fn ent(r: RefName) -> Result<Ent, String> {
     let h = build(&r)?;
@@ -51,9 +49,9 @@ pub fn ent(r: RefName) -> Result<Ent, String> {
     let flat: Vec<u8> = r.labels.concat().iter().map(|b| vref::name::fold(*b)).collect();
     let shape = fnv64(&r.labels.iter().map(|l| l.len() as u8).collect::<Vec<u8>>());
     Ok(Ent {
-        hash: h64(&h),
-        lhash: h64(&low),
-        khash: h64(&ka),
+        hs: hashes(&h),
+        lhs: hashes(&low),
+        khs: hashes(&ka),
         h,
         low,
         ka,
@@ -87,6 +85,26 @@ pub fn universe(ctx: &Ctx, names: Vec<RefName>) -> Vec<Ent> {
             }
         }
     });
+    // every name against its canonical lower-case twin (equal by definition): Name, LowerName, RrKey
+    ctx.with_local(|l| {
+        for e in &ents {
+            let twin_r = RefName::new(vref::name::lower(&e.r.labels), e.r.fqdn);
+            let Ok(t) = ent(twin_r) else { continue };
+            l.eval();
+            if e.h != t.h || e.low != t.low || e.ka != t.ka {
+                l.violation("eq:lowercase-twin-not-equal", "a name is not equal to its lower-case twin", || pair_case(&e.r, &t.r));
+                continue;
+            }
+            for (who, x, y) in [("hash", &e.hs, &t.hs), ("lowername-hash", &e.lhs, &t.lhs), ("rrkey-hash", &e.khs, &t.khs)] {
+                if let Some(m) = mismatch(x, y) {
+                    l.violation(&format!("{who}:{m}:vs-lowercase-twin"), "a name and its lower-case twin are hashed differently", || hash_case(&e.r, &t.r, x, y));
+                }
+            }
+            if e.r.labels != t.r.labels {
+                l.outcome("hash:twin-with-other-case-compared");
+            }
+        }
+    });
     let mut idx: Vec<usize> = (0..ents.len()).collect();
     idx.sort_by(|&a, &b| canonical_cmp(&ents[a].r.labels, &ents[b].r.labels));
     let mut rank = 0u32;
@@ -115,6 +133,12 @@ fn pair_case(a: &RefName, b: &RefName) -> Value {
     json!({"family": "pair", "a": name_json(a), "b": name_json(b)})
 }
 
+fn hash_case(a: &RefName, b: &RefName, ha: &Hashes, hb: &Hashes) -> Value {
+    json!({"family": "pair", "a": name_json(a), "b": name_json(b),
+        "hasher_calls_a": crate::hashers::render(&ha.log), "hasher_calls_b": crate::hashers::render(&hb.log),
+        "siphash": [ha.sip, hb.sip], "fxhash": [ha.fx, hb.fx], "length_prefixing": [ha.lp, hb.lp]})
+}
+
 /// The oracle for one ordered pair. `full` adds the LowerName / RrKey clauses.
 #[inline]
 pub fn judge_pair(a: &Ent, b: &Ent, full: bool, laws: bool, l: &mut Local) {
@@ -125,9 +149,25 @@ pub fn judge_pair(a: &Ent, b: &Ent, full: bool, laws: bool, l: &mut Local) {
         let rel = relation(&a.r, &b.r);
         l.violation(&format!("eq:got-{got_eq}:{rel}"), "Name == disagrees with case-folded label identity", || pair_case(&a.r, &b.r));
     }
-    if want_eq && a.hash != b.hash {
-        let rel = relation(&a.r, &b.r);
-        l.violation(&format!("hash:differs-for-equal:{rel}"), "equal names hash differently", || pair_case(&a.r, &b.r));
+    if want_eq {
+        // Hash consistent with Eq for EVERY hasher: identical Hasher call sequence, and equal values
+        // under SipHash, the chunk-sensitive FxHash and a length-prefixing hasher
+        if let Some(m) = mismatch(&a.hs, &b.hs) {
+            let rel = relation(&a.r, &b.r);
+            let key = if m == "siphash-differs" { format!("hash:differs-for-equal:{rel}") } else { format!("hash:{m}:{rel}") };
+            l.violation(&key, "equal names are hashed differently", || hash_case(&a.r, &b.r, &a.hs, &b.hs));
+        }
+        if !std::ptr::eq(a, b) {
+            // a map keyed by Name under a chunk-sensitive hasher finds the key through any equal name
+            let mut m: HashMap<Name, u8, FxBuild> = HashMap::default();
+            m.insert(a.h.clone(), 1);
+            if m.get(&b.h).is_none() || m.insert(b.h.clone(), 2).is_none() || m.len() != 1 {
+                let rel = relation(&a.r, &b.r);
+                l.violation(&format!("hash:fx-hashmap-lookup-misses:{rel}"), "HashMap<Name, _, Fx>: an equal name does not find the entry", || pair_case(&a.r, &b.r));
+            } else if a.r.labels != b.r.labels {
+                l.outcome("hash:fx-hashmap-lookup-by-case-variant-ok");
+            }
+        }
     }
     let got = a.h.cmp(&b.h);
     if same_flag {
@@ -173,8 +213,23 @@ pub fn judge_pair(a: &Ent, b: &Ent, full: bool, laws: bool, l: &mut Local) {
             let rel = relation(&a.r, &b.r);
             l.violation(&format!("lowername-eq:got-{leq}:{rel}"), "LowerName == disagrees with name identity", || pair_case(&a.r, &b.r));
         }
-        if want_eq && a.lhash != b.lhash {
-            l.violation("lowername-hash:differs-for-equal", "equal LowerNames hash differently", || pair_case(&a.r, &b.r));
+        if want_eq {
+            if let Some(m) = mismatch(&a.lhs, &b.lhs) {
+                let key = if m == "siphash-differs" { "lowername-hash:differs-for-equal".to_string() } else { format!("lowername-hash:{m}") };
+                l.violation(&key, "equal LowerNames are hashed differently", || hash_case(&a.r, &b.r, &a.lhs, &b.lhs));
+            }
+            if !std::ptr::eq(a, b) {
+                let mut m: HashMap<LowerName, u8, FxBuild> = HashMap::default();
+                m.insert(a.low.clone(), 1);
+                let mut k: HashMap<RrKey, u8, FxBuild> = HashMap::default();
+                k.insert(a.ka.clone(), 1);
+                if m.get(&b.low).is_none() {
+                    l.violation("lowername-hash:fx-hashmap-lookup-misses", "HashMap<LowerName, _, Fx>: an equal name does not find the entry", || pair_case(&a.r, &b.r));
+                }
+                if k.get(&b.ka).is_none() || k.get(&b.kb).is_some() {
+                    l.violation("rrkey-hash:fx-hashmap-lookup-misses", "HashMap<RrKey, _, Fx>: lookup by an equal key misses (or a key of another type hits)", || pair_case(&a.r, &b.r));
+                }
+            }
         }
         // RrKey: name-major, type-minor
         let k_same = a.ka.cmp(&b.ka);
@@ -198,8 +253,11 @@ pub fn judge_pair(a: &Ent, b: &Ent, full: bool, laws: bool, l: &mut Local) {
         if (a.ka == b.ka) != want_eq || a.ka == b.kb {
             l.violation("rrkey-eq", "RrKey == disagrees with (name identity, type)", || pair_case(&a.r, &b.r));
         }
-        if want_eq && a.khash != b.khash {
-            l.violation("rrkey-hash:differs-for-equal", "equal RrKeys hash differently", || pair_case(&a.r, &b.r));
+        if want_eq {
+            if let Some(m) = mismatch(&a.khs, &b.khs) {
+                let key = if m == "siphash-differs" { "rrkey-hash:differs-for-equal".to_string() } else { format!("rrkey-hash:{m}") };
+                l.violation(&key, "equal RrKeys are hashed differently", || hash_case(&a.r, &b.r, &a.khs, &b.khs));
+            }
         }
     }
     // non-trivial pairs: differ only by case, by one octet, or by label boundary placement
@@ -317,11 +375,11 @@ pub fn replay_triple(case: &Value, l: &mut Local) {
 /// All ordered pairs of labels through `Label`'s own eq / cmp / hash.
 pub fn run_label_pairs(ctx: &Ctx, labels: &[Vec<u8>]) {
     use hickory_proto::rr::domain::Label;
-    let ls: Vec<(Label, u64)> = labels
+    let ls: Vec<(Label, Hashes)> = labels
         .iter()
         .filter_map(|b| Label::from_raw_bytes(b).ok())
         .map(|l| {
-            let h = h64(&l);
+            let h = hashes(&l);
             (l, h)
         })
         .collect();
@@ -342,8 +400,11 @@ pub fn run_label_pairs(ctx: &Ctx, labels: &[Vec<u8>]) {
             if (a == b) != want_eq {
                 l.violation(&format!("label-eq:got-{}", a == b), "Label == disagrees with ASCII-folded identity", case);
             }
-            if want_eq && ha != hb {
-                l.violation("label-hash:differs-for-equal", "equal labels hash differently", case);
+            if want_eq {
+                if let Some(m) = mismatch(ha, hb) {
+                    let key = if m == "siphash-differs" { "label-hash:differs-for-equal".to_string() } else { format!("label-hash:{m}") };
+                    l.violation(&key, "equal labels are hashed differently", case);
+                }
             }
             let got = a.cmp(b);
             if got != want {
@@ -371,8 +432,11 @@ pub fn replay_label_pair(case: &Value, l: &mut Local) {
     if (a == b) != want_eq {
         l.violation(&format!("label-eq:got-{}", a == b), "Label == disagrees with ASCII-folded identity", || case.clone());
     }
-    if want_eq && h64(&a) != h64(&b) {
-        l.violation("label-hash:differs-for-equal", "equal labels hash differently", || case.clone());
+    if want_eq {
+        if let Some(m) = mismatch(&hashes(&a), &hashes(&b)) {
+            let key = if m == "siphash-differs" { "label-hash:differs-for-equal".to_string() } else { format!("label-hash:{m}") };
+            l.violation(&key, "equal labels are hashed differently", || case.clone());
+        }
     }
     let got = a.cmp(&b);
     if got != want {
